@@ -488,7 +488,7 @@ pub fn gen_case(rng: &mut Rng, len: usize, bias: &Bias) -> PairCase {
         ops.push(op);
     }
     let fab = !kinds[1] && rng.chance(1, 4);
-    let decs = *rng.pick(&[[6u8, 6u8], [6, 6], [6, 8], [18, 6], [8, 6], [6, 18]]);
+    let decs = *rng.pick(&[[6u8, 6u8], [6, 6], [6, 8], [18, 6], [8, 6], [6, 18], [24, 6], [6, 20]]);
     PairCase { kinds, fees, ops, fab, decs }
 }
 
